@@ -107,7 +107,10 @@ class BufGen:
         return node
 
     def program(self):
-        return {"body": self.stmts(self.p["top_stmts"], 0, [], False), "views": bool(self.p.get("views"))}
+        ast = {"body": self.stmts(self.p["top_stmts"], 0, [], False), "views": bool(self.p.get("views"))}
+        if self.p.get("multiblock"):
+            ast["blocks"] = [self.stmts(self.r.randint(1, 3), 0, [], False), self.stmts(self.r.randint(1, 3), 0, [], False)]
+        return ast
 
 
 def generic_text(ins, out, tag):
@@ -172,6 +175,15 @@ def emit(ast) -> str:
             e(2, f"{w} = memref.subview {b}[{off}][2][1] : {T1} to {buf_type(w)}")
         e(2, f"%s0 = memref.alloc() {{vsite = 7 : i64}} : {TS1}")
     stmts(2, ast["body"])
+    if ast.get("blocks"):
+        # unstructured control flow: entry -> (p0 ? bb1 : bb2); bb1 -> bb2; bb2 -> return
+        b1, b2 = ast["blocks"]
+        e(2, "cf.cond_br %p0, ^bb1, ^bb2")
+        e(1, "^bb1:")
+        stmts(2, b1)
+        e(2, "cf.br ^bb2")
+        e(1, "^bb2:")
+        stmts(2, b2)
     e(2, "func.return")
     e(1, "}")
     e(0, "}")
